@@ -90,6 +90,24 @@ def compare_scripts(run, text, ref, env, psc, g, cards, case, tags):
             elif c.name == smtcmd.GET_VALUE:
                 for t in c.args:
                     pterms.append(("get-value", [], pys.decode(t, memo)))
+        rstack = [tuple(c) for c in ref.commands if c[0] in ("push", "pop")]
+        pstack = [(c.name, c.args[0]) for c in psc.commands if c.name in (smtcmd.PUSH, smtcmd.POP)]
+        if rstack != pstack:
+            run.fail({"subcheck": "parse:stack-command-argument"}, case,
+                     "assertion-stack commands: standard reading %r, pySMT %r\n text=%s" % (rstack, pstack, text[:600]))
+            return 0
+        live = None
+        if rstack:
+            try:
+                live = (ref.assertions(), pys.decode(psc.get_last_formula(env.formula_manager), memo))
+            except Exception as e:
+                run.fail({"subcheck": "parse:live-assertions-raised"}, case,
+                         "get_last_formula raised %s: %s\n text=%s" % (type(e).__name__, e, text[:600]))
+                return 0
+    if live is not None:
+        rterms.append(("live-assertions", [], ("AND", (), tuple(live[0])) if len(live[0]) > 1 else
+                       live[0][0] if live[0] else ("CONST", (BOOL, True), ())))
+        pterms.append(("live-assertions", [], live[1]))
     if [k for (k, _, _) in rterms] != [k for (k, _, _) in pterms]:
         run.fail({"subcheck": "parse:command-list"}, case,
                  "commands differ: standard %r, pySMT %r\n text=%s" % ([k for (k, _, _) in rterms], [k for (k, _, _) in pterms], text[:600]))
@@ -189,8 +207,8 @@ def gen_script(rnd, k):
     cards = g.cards()
     tags = set()
     kind = g.weighted([(6, "plain"), (3, "define-fun"), (2, "swap-let"), (2, "def-capture"), (2, "let-capture"),
-                       (1, "def-shadow"), (2, "get-value")])
-    nform = g.weighted([(5, 1), (3, 2), (1, 3)])
+                       (1, "def-shadow"), (2, "get-value"), (2, "stack")])
+    nform = g.weighted([(5, 1), (3, 2), (1, 3)]) if kind != "stack" else rnd.randint(2, 4)
     forms = [g.term(BOOL) for _ in range(nform)]
     ns = set()
     for f in forms:
@@ -212,6 +230,25 @@ def gen_script(rnd, k):
     if kind == "plain":
         for f in forms:
             body_lines.append("(assert %s)" % w.term_with_lets(f, ns))
+    elif kind == "stack":
+        # assertion-stack commands in every spelling: (push) (push 0) (push 2) (pop) (pop 0) ...
+        depth = 0
+        tags.add("stack-commands")
+        for f in forms:
+            for _ in range(rnd.randint(0, 2)):
+                if depth > 0 and rnd.random() < 0.45:
+                    n = rnd.choice([0, 1, 1, min(2, depth)])
+                    body_lines.append("(pop)" if n == 1 and rnd.random() < 0.4 else "(pop %d)" % n)
+                    depth -= n
+                    tags.add("pop-%d" % n)
+                else:
+                    n = rnd.choice([0, 1, 1, 2])
+                    body_lines.append("(push)" if n == 1 and rnd.random() < 0.4 else "(push %d)" % n)
+                    depth += n
+                    tags.add("push-%d" % n)
+            body_lines.append("(assert %s)" % w.term(f))
+        if rnd.random() < 0.5:
+            body_lines.append("(check-sat)")
     elif kind == "get-value":
         body_lines.append("(assert %s)" % w.term(forms[0]))
         body_lines.append("(check-sat)")
